@@ -954,6 +954,10 @@ func (eval Evaluator) MulThenAdd(op0 *rlwe.Ciphertext, op1 rlwe.Operand, opOut *
 		// Gets the ring at the minimum level
 		ringQ := eval.GetParameters().RingQ().AtLevel(level)
 
+		if op0.El() == opOut.El() {
+			return fmt.Errorf("cannot MulThenAdd: opOut must be different from op0")
+		}
+
 		// Convertes the scalar to a *bignum.Complex
 		cmplxBig := bignum.ToComplex(op1, eval.GetParameters().EncodingPrecision())
 
@@ -1003,6 +1007,10 @@ func (eval Evaluator) MulThenAdd(op0 *rlwe.Ciphertext, op1 rlwe.Operand, opOut *
 
 		// Gets the ring at the target level
 		ringQ := eval.GetParameters().RingQ().AtLevel(level)
+
+		if op0.El() == opOut.El() {
+			return fmt.Errorf("cannot MulThenAdd: opOut must be different from op0")
+		}
 
 		var scaleRLWE rlwe.Scale
 		if cmp := op0.Scale.Cmp(opOut.Scale); cmp == 0 { // If op0 and opOut scales are identical then multiplies opOut by scaleRLWE.
